@@ -249,13 +249,20 @@ func setupFile(v6 bool, args ...string) (handler.Handler6, handler.Handler4, err
 					continue
 				}
 
-				log.Infof("updated to %d leases from %s", len(StaticRecords), filename)
+				log.Infof("updated to %d leases from %s", leasesCount(), filename)
 			}
 		}()
 	}
 
-	log.Infof("loaded %d leases from %s", len(StaticRecords), filename)
+	log.Infof("loaded %d leases from %s", leasesCount(), filename)
 	return Handler6, Handler4, nil
+}
+
+// leasesCount returns the number of static leases currently loaded
+func leasesCount() int {
+	recLock.RLock()
+	defer recLock.RUnlock()
+	return len(StaticRecords)
 }
 
 func loadFromFile(v6 bool, filename string) error {
